@@ -875,6 +875,16 @@ KIND_SPLITS = [
     (["-u"], ["-u"], {"loud": 2}, {"loud": 1}), (["-uu"], ["--loud"], {"loud": 3}, {"loud": 1}),
     (["-L", "3"], ["-L", "4"], {"level": 4}, {"level": 4}), (["--maybe=v"], ["--maybe=w"], {"maybe": "w"}, {"maybe": "w"}),
     (["-e"], ["-e"], {"echo": True}, {"echo": True}),
+    # a plain value option given before AND inside: the later (inside) occurrence wins, whatever its value - in particular a
+    # value EQUAL TO THE OPTION'S DEFAULT is a given value (stock str / int options, subclass int option; both directions)
+    (["-F", "json"], ["-F", "flat"], {"list-format": "flat"}, {"list-format": "flat"}),
+    (["-F", "flat"], ["--list-format=json"], {"list-format": "json"}, {"list-format": "json"}),
+    (["--list-format=nested"], ["-Fflat"], {"list-format": "flat"}, {"list-format": "flat"}),
+    (["-D", "2"], ["-D", "0"], {"list-depth": 0}, {"list-depth": 0}), (["--list-depth=0"], ["-D2"], {"list-depth": 2}, {"list-depth": 2}),
+    (["-D", "2", "-F", "json"], ["--list-depth=0", "-F", "flat"], {"list-depth": 0, "list-format": "flat"}, {"list-depth": 0, "list-format": "flat"}),
+    (["-L", "3"], ["-L", "1"], {"level": 1}, {"level": 1}), (["--level=1"], ["-L3"], {"level": 3}, {"level": 3}),
+    (["-L", "3", "-e"], ["--level", "1", "-w"], {"level": 1, "echo": True, "warn-only": True}, {"level": 1, "warn-only": True}),
+    (["--hide", "out"], ["--hide=both"], {"hide": "both"}, {"hide": "both"}), (["-T", "5"], ["-T", "7"], {"command-timeout": 7}, {"command-timeout": 7}),
 ]
 # Divergences of the UNCHANGED implementation on this dimension (witnesses reported; printed as histogram lines, demanded by
 # `replay` and - once listed as known findings - by the run as well):
@@ -1154,7 +1164,7 @@ def run(ctx):
                  and not (t.startswith("-") and not t.startswith("--") and ("d" in t[1:] or "V" in t[1:]))]
         alpha += ["-T5", "-T=5", "--hide=out", "-ew", "-we", "--command-timeout=7", "-f=x.yml", "-F", "json", "-F=flat", "-D", "2", "--", "zed"]
         names = list(nv.view.names)
-        for _ in range(ctx.n(380, 6000)):
+        for _ in range(ctx.n(330, 6000)):
             if rng.random() < 0.5:
                 argv = flat([build_call(rng.choice(tasks), rng) for _ in range(rng.choice([1, 2]))])
                 for _ in range(rng.choice([0, 1, 1, 2])):
